@@ -713,6 +713,9 @@ class Request(object):
 
 
 XSI_NIL = '{http://www.w3.org/2001/XMLSchema-instance}nil'
+XSI_TYPE_ATTR = '{http://www.w3.org/2001/XMLSchema-instance}type'
+_XSI_TYPE = [False, 0]  # complex elements say their own (declared) type, the way
+                     # rpc/encoded-minded toolkits do
 _TNS = [None]       # target namespace of the application being encoded for
 
 
@@ -725,7 +728,16 @@ def _xml_value(parent, ns, name, spec, value, nil=False):
     if spec.kind == 'prim':
         etree.SubElement(parent, '{%s}%s' % (ns, name)).text = spec.text(value)
     elif spec.kind == 'complex':
-        el = etree.SubElement(parent, '{%s}%s' % (ns, name))
+        if _XSI_TYPE[0] and spec.cls.get_namespace() and \
+                spec.cls.get_namespace() not in [u for p_, u in
+                                          parent.nsmap.items() if p_]:
+            # (a fresh prefix each time: re-binding one that an ancestor
+            # uses would drag the element's own name along)
+            _XSI_TYPE[1] += 1
+            el = etree.SubElement(parent, '{%s}%s' % (ns, name),
+                   nsmap={'ty%d' % _XSI_TYPE[1]: spec.cls.get_namespace()})
+        else:
+            el = etree.SubElement(parent, '{%s}%s' % (ns, name))
         # fields of a class live in the namespace of the class that declares
         # them (parents first)
         chain = []
@@ -744,6 +756,13 @@ def _xml_value(parent, ns, name, spec, value, nil=False):
                     _xml_value(el, cns, fn, fs, value[fn], nil)
                 elif nil and fs.kind == 'prim':
                     _xml_value(el, cns, fn, fs, None, nil)
+        if _XSI_TYPE[0]:
+            tns_ = spec.cls.get_namespace()
+            for pfx, uri in sorted(el.nsmap.items(), key=str):
+                if uri == tns_ and pfx:
+                    el.set(XSI_TYPE_ATTR, '%s:%s' % (pfx,
+                                                 spec.cls.get_type_name()))
+                    break
     elif spec.kind == 'multi':
         for item in value:
             etree.SubElement(parent, '{%s}%s' % (ns, name)).text = \
@@ -812,7 +831,8 @@ def _quote(s):
 
 
 def encode_request(uni, in_prot, mname, args, wrappers=False, app=None,
-                                          method_name=None, xsi_nil=False):
+                                          method_name=None, xsi_nil=False,
+                                          xsi_type=False):
     """Valid request for `mname(**args)` in input protocol `in_prot`.
     `method_name` overrides the name put on the wire (unknown-method case)."""
     m = uni.methods[mname]
@@ -823,9 +843,14 @@ def encode_request(uni, in_prot, mname, args, wrappers=False, app=None,
     label = (mname, 'call')
     if kind == 'xml':
         root = etree.Element('{%s}%s' % (tns, wire), nsmap={'t': tns})
-        for an, sp in m.args:
-            if an in args:
-                _xml_value(root, tns, an, sp, args[an], xsi_nil)
+        _XSI_TYPE[0] = bool(xsi_type)
+        _XSI_TYPE[1] = 0
+        try:
+            for an, sp in m.args:
+                if an in args:
+                    _xml_value(root, tns, an, sp, args[an], xsi_nil)
+        finally:
+            _XSI_TYPE[0] = False
         if in_prot == 'xml':
             doc = root
         else:
